@@ -23,10 +23,11 @@ EXPLANATION = (
     "failure_cases=exc.failure_cases); (R4) no coerce/try_coerce implementation writes through its data_container "
     "argument; (R5) values whose declared return type is pl.LazyFrame are not combined with & | ~ (LazyFrame defines "
     "none); (R6) wherever a coerce method compares null-ness after the conversion with null-ness of its input, the two "
-    "masks are combined element-wise (isna(result) & notna(input)) before any aggregation; (R7) a coerce method returns its input unchanged only under a guard that compares with the target type. NOT decided: everything value-level - exactness, idempotence, agreement of coerce/coerce_value/check."
+    "masks are combined element-wise (isna(result) & notna(input)) before any aggregation; (R7) a coerce method returns its input unchanged only under a guard that compares with the target type. (R8) definite assignment: no function of pandera/engines/ reads a local that a branch-only path from its entry leaves unassigned (CFG may-analysis, optimistic about try bodies and loop bodies, correlated guards pruned) - an UnboundLocalError there would escape coercion instead of a ParserError. " 
+    "NOT decided: everything value-level - exactness, idempotence, agreement of coerce/coerce_value/check."
 )
 LEVEL_RULE = "one obligation per try_coerce implementation / helper / schema-level site / coerce method / operator"
-FLOORS = {"R1": 4, "R2": 4, "R3": 4, "R4": 20, "R5": 1, "R6": 2, "R7": 2}
+FLOORS = {"R1": 4, "R2": 4, "R3": 4, "R4": 20, "R5": 1, "R6": 2, "R7": 2, "R8": 1}
 
 HELPERS = {"numpy_pandas_coerce_failure_cases", "polars_coerce_failure_cases", "polars_failure_cases_from_coercible"}
 ENGINE_MODS = ["pandera/engines/numpy_engine.py", "pandera/engines/pandas_engine.py", "pandera/engines/polars_engine.py",
@@ -381,6 +382,8 @@ def r7_identity_shortcut(ctx):
 
 
 def run(ctx):
+    from ..defassign import check_modules
+    check_modules(ctx, "R8", ('pandera/engines/',), "escapes coercion instead of a ParserError / coerced data")
     r1_try_coerce(ctx)
     r2_helpers(ctx)
     r3_schema_level(ctx)
